@@ -116,7 +116,13 @@ def expect_pos(files):
             for ln, line in enumerate(src.split("\n"), 1):
                 k = line.find(word)
                 if k >= 0:
-                    hits.append((fname, ln, k + 1, len(line)))
+                    # columns are 1-based and count characters.  `assert`: the report names the first character of the
+                    # statement; `get`: a column inside the parenthesised get-expression
+                    if key == "assert":
+                        hits.append((fname, ln, k + 1, k + 1))
+                    else:
+                        close = line.find(")", k)
+                        hits.append((fname, ln, k + 1, close + 1 if close >= 0 else len(line)))
                     if line.find(word, k + 1) >= 0:
                         hits.append((fname, ln, 0, 0))
         if len(hits) == 1:
